@@ -192,7 +192,10 @@ def check(case):
             pass
         spec2 = copy.deepcopy(spec)
         by_name = {c["name"]: c for c in spec2["decl"]}
-        for edit in ("rate-law", "derived-function", "parameter-value", "initial-value"):
+        edits = ["rate-law", "derived-function", "parameter-value", "initial-value"]
+        if case["w"] is not None:
+            edits.append("make-static")  # the assignment-defined variable w becomes an assignment-defined PARAMETER
+        for edit in edits:
             if edit == "rate-law":
                 by_name["v"]["expr"] = ["add", by_name["v"]["expr"], V(1.0)]
                 m.update_reaction("v", fn=X_.make_fn(by_name["v"]["args"], by_name["v"]["expr"], "r_v2"))
@@ -202,6 +205,12 @@ def check(case):
             elif edit == "parameter-value":
                 by_name["p"]["value"] = 3.0
                 m.update_parameter("p", 3.0)
+            elif edit == "make-static":
+                wdecl = by_name["w"]
+                wdecl["kind"] = "parameter"
+                by_name["v"]["stoich"].pop("w", None)
+                m.make_variable_static("w")
+                var_names = [v for v in var_names if v != "w"]
             else:
                 by_name["x"]["value"] = 2.25
                 m.update_variable("x", 2.25)
